@@ -18,13 +18,13 @@ import (
 
 // listener is one registration of a close/disconnect listener.
 type listener struct {
-	kind       string // conn.OnClosed | ctx.OnDisconnected (client or server side)
-	registered bool   // registration reported success
-	calls      atomic.Int32
-	closedSeen atomic.Bool // Closed()/Disconnected() was set when the listener ran
-	badFlag    atomic.Bool
-	unsub      func()
-	unsubState atomic.Int32 // 0 none, 1 unsub returned before close was initiated, 2 overlapping with close
+	kind                   string // conn.OnClosed | ctx.OnDisconnected (client or server side)
+	registered             bool   // registration reported success
+	calls                  atomic.Int32
+	closedSeen             atomic.Bool // Closed()/Disconnected() was set when the listener ran
+	badFlag                atomic.Bool
+	unsub                  func()
+	unsubState             atomic.Int32 // 0 none, 1 unsub returned before close was initiated, 2 overlapping with close
 	regAfterCloseInitiated bool
 }
 
